@@ -19,7 +19,7 @@ The property (a semantic guarantee users rely on):
 Your task: produce TWO different, independent source changes to MCHap (each a small patch a plausible refactoring / optimisation / bug-fix attempt could introduce) that each BREAK this property while the project still imports, compiles (numba) and PASSES THE EXISTING TEST SUITE. The suite is run as
   cd /tmp/seeded/{name}/w && /venv/bin/python -m pytest -q -p no:cacheprovider --timeout=900 -x --deselect mchap/tests/test_docs.py --deselect "mchap/tests/test_jitutils.py::test_comb[0-0]"
 (the deselected tests fail on the pristine tree in this sandbox; the full suite takes ~5 minutes; while iterating run only the relevant test modules, then the full suite once per final patch).
-Prefer changes that need something specific to manifest — an unusual input (duplicated haplotypes, multi-allelic sites, many SNVs, unequal read counts, masked alleles...), a particular multi-step sequence of operations, a particular cache/RNG/process history, or two cooperating sites that each look fine alone — NOT changes that ordinary use or the existing tests would expose at once. The two changes should break the property in different ways / at different code sites.
+Prefer changes that need something specific to manifest — an unusual input (duplicated haplotypes, multi-allelic sites, many SNVs, unequal read counts, masked alleles...), a particular multi-step sequence of operations, a particular cache/RNG/process history, or two cooperating sites that each look fine alone — NOT changes that ordinary use or the existing tests would expose at once. The two changes should break the property in different ways / at different code sites. Think broadly about where the trigger can live: numeric ranges (counts of anything beyond 127 / 255 / 32767, coordinates beyond 65535, very small or very large probabilities), exact boundary values of thresholds and options, combinations of two non-default options, file-format corner cases (header features, flags, missing or empty fields, unusual but legal names and orderings), and the history of earlier calls.
 
 For each change i in (1, 2) write into /tmp/seeded/{name}/change<i>/:
   patch.diff   — `git diff` of the change against HEAD (only files under mchap/, no test edits)
